@@ -95,8 +95,16 @@ var moreIntrinsics []func(e *Engine)
 
 // advanceClock moves the symbolic clock to a fresh instant >= the current one (and >= atLeast).
 func (e *Engine) advanceClock(st *State, atLeast *term.Term) {
-	e.nclock++
-	v := term.Var(fmt.Sprintf("clock!%d", e.nclock), term.BV(64))
+	// the name is a function of (thread, per-thread counter): the same in every interleaving
+	name := fmt.Sprintf("clock!%d", e.nclock)
+	if ti := st.threadIdx(e.curThread); ti >= 0 {
+		th := st.threadW(ti)
+		th.NAlloc++
+		name = fmt.Sprintf("clock!t%d.%d", th.ID, th.NAlloc)
+	} else {
+		e.nclock++
+	}
+	v := term.Var(name, term.BV(64))
 	last := st.Clock
 	if last == nil {
 		last = term.BVC(64, 0)
